@@ -48,6 +48,8 @@ func sigClass(sig string) string {
 		return p[0] + "/" + p[1]
 	case "F4c":
 		return p[0] + "/" + p[1] // composition signature without operand source
+	case "F1lit":
+		return sig
 	case "F5":
 		if len(p) >= 3 {
 			return p[0] + "/" + p[1] + "/" + p[2]
@@ -124,9 +126,9 @@ func quickFamilies(r *explore.Run) []*wgen.Family {
 
 func baseFamilies(r *explore.Run) []*wgen.Family {
 	if r.Thorough() {
-		return []*wgen.Family{wgen.F1(), wgen.F2(3, false), wgen.F2(5, true), wgen.F2L(3, false), wgen.F2L(4, true), wgen.F4c(true), wgen.F2Mini(5, 3)}
+		return []*wgen.Family{wgen.F1(), wgen.F2(3, false), wgen.F2(5, true), wgen.F2L(3, false), wgen.F2L(4, true), wgen.F4c(true), wgen.F2Mini(5, 3), wgen.F1lit()}
 	}
-	return []*wgen.Family{wgen.F1(), wgen.F2(2, false), wgen.F2(4, true), wgen.F2L(2, false), wgen.F2L(3, true), wgen.F4c(false), wgen.F2Mini(4, 3)}
+	return []*wgen.Family{wgen.F1(), wgen.F2(2, false), wgen.F2(4, true), wgen.F2L(2, false), wgen.F2L(3, true), wgen.F4c(false), wgen.F2Mini(4, 3), wgen.F1lit()}
 }
 
 // prog is one program presented to a per-program check.
@@ -168,6 +170,8 @@ func familyByName(name string) *wgen.Family {
 		return wgen.F15Zero()
 	case "F4idx":
 		return wgen.F4Idx()
+	case "F1lit":
+		return wgen.F1lit()
 	case "F4c":
 		return wgen.F4c(false)
 	case "F4call":
